@@ -42,7 +42,7 @@ def members(ctx):
 
 
 SIGOPTS = [[], [("ts", 0, 3, 4)], [("ts", 4, 3, 4)], [("ts", 4, 4, 4)], [("ks", 2, "G")], [("ts", 0, 3, 4), ("ks", 2, "G")],
-           [("ks", 2, "D")], [("ts", 0, 3, 4), ("ts", 4, 4, 4)]]
+           [("ks", 2, "D")], [("ts", 0, 3, 4), ("ts", 4, 4, 4)], [("ts", 4, 3, 8)], [("ts", 0, 3, 4), ("ts", 6, 3, 8)]]
 
 
 def units(ctx):
@@ -161,7 +161,9 @@ def check_case(case, ctx):
     n_exec = 0
     for perm in sorted(set(itertools.permutations(range(len(mems))))):
         for mode in ("into_empty", "into_first"):
-            seqs = [lib.seq_abs(mems[i]["notes"], mems[i]["events"], mems[i]["dur"]) for i in perm]
+            # members are built alternately through the absolute and the relative representation
+            seqs = [(lib.seq_abs if (k + (mode == "into_first")) % 2 == 0 else lib.seq_rel)(
+                mems[i]["notes"], mems[i]["events"], mems[i]["dur"]) for k, i in enumerate(perm)]
             if mode == "into_empty":
                 recv, rest = Sequence(), seqs
             else:
